@@ -76,7 +76,7 @@ def design(ctx, names):
 def gen_cases(ctx, names, parts=None, nrandom=None):
     """(b) TLC enumerates the plan families and random nested plans."""
     if parts is None:
-        parts = ["matrix012", "values2", "values1", "refs", "computed", "eqcont", "scratch", "nestlit", "arith", "cmp", "retval", "var3", "mutate", "forms"]
+        parts = ["matrix012", "values2", "values1", "refs", "computed", "eqcont", "scratch", "nestlit", "arith", "cmp", "retval", "var3", "bigint", "implied", "mutate", "forms"]
         if not ctx.quick:
             parts += ["matrix012b", "matrix3", "matrix4", "values3"]
     if nrandom is None:
@@ -137,6 +137,8 @@ def node_text(n):
         return "true" if n["v"] else "false"
     if t == "int":
         return str(n["v"])
+    if t == "bigint":
+        return ("-" if n.get("neg") else "") + "".join(str(d) for d in n["d"])
     if t == "flt":
         q = n["q"]
         return repr(q[0] / (1 << q[1])) if len(q) == 2 else n.get("s", "?")
@@ -171,7 +173,7 @@ def locus_str(b):
     loc = b["loc"]
     where = "%s(%s)" % (fn, ",".join(kinds))
     if b["kind"] == "wrong-value":
-        return "sem/%s/arg1-%s/%s/got-%s" % (fn, b.get("arg1", "none"), loc[1], loc[2])
+        return "sem/%s/arg1-%s/%s/got-%s%s" % (fn, b.get("arg1", "none"), loc[1], loc[2], "/bigint" if b.get("big") else "")
     if b["kind"] == "panic":
         return "panic/%s/%s" % (loc[0], where)
     if b["kind"] == "nondeterministic":
